@@ -227,7 +227,7 @@ EditClauses(e) ==
     LET touched == SetOfSeq(e.changed) \cup SetOfSeq(e.removed)
         preS == (SetOfSeq(e.preF.started) \cup SetOfSeq(e.preF.completed)) \ SetOfSeq(e.preF.failed)    \* a failed line may be repaired
         live == p.started /\ "root" \in SetOfSeq(e.preF.started)
-        macroHit == touched \cap SetOfSeq(e.macroLines) # {}
+        macroHit == touched \cap SetOfSeq(e.macroLines) # {} \/ e.addedInMacro      \* changed, removed or extended
         Keeps(k) == SetOfSeq(e.preF[k]) \subseteq SetOfSeq(e.postF[k])
         preM == e.preM postM == e.postM
         op == e.op \o (IF edits > 0 \/ tainted THEN "-after-edit" ELSE "")
